@@ -252,14 +252,15 @@ def control_data_full_case(seed):
     from pytoniq_core.boc.hashmap import HashMap
     from pytoniq_core.tlb.vm_stack import VmCont, VmControlData, VmStackValue
     r = random.Random(seed)
-    nargs, cp = r.randrange(1, 1 << 13), r.choice([-1, 1, 7, -32768, 32767])
+    # nargs = 0 and cp = 0 are values ("present"), None is "absent" (F19, repaired)
+    nargs, cp = r.choice([0, 1, (1 << 13) - 1, None, r.randrange(1 << 13)]), r.choice([0, -1, 1, 7, -32768, 32767, None])
     key, val = r.choice([1, 2, 5, 6, 9, 10, 13]), r.randrange(-(1 << 62), 1 << 62)       # keys whose 4 bits are not all equal
     save = HashMap(4, value_serializer=lambda v, b: b.store_cell(VmStackValue.serialize(v)))
     save.set_int_key(key, val)
     # the dictionary root by hand: hml_long$10 n=4 (3 bits) key; vm_stk_tinyint#01 value:int64
     dict_cell = Builder().store_bits("10" + "100" + format(key, "04b")).store_uint(1, 8).store_int(val, 64).end_cell()
-    cdata_bits = "1" + format(nargs, "013b") + "0" + "1"
-    cp_bits = "1" + format(cp & 0xFFFF, "016b")
+    cdata_bits = ("0" if nargs is None else "1" + format(nargs, "013b")) + "0" + "1"
+    cp_bits = "0" if cp is None else "1" + format(cp & 0xFFFF, "016b")
     code = Builder().store_uint(0xABCD, 16).store_ref(Builder().store_uint(3, 2).end_cell()).end_cell()
     for kind in ("vmc_std", "vmc_envelope"):
         # (the library takes the save list as the dictionary's root cell: VmSaveList.serialize passes it to store_dict)
@@ -297,6 +298,15 @@ def control_data_full_case(seed):
                 return "vmc_std with a save list: the code slice is not the code cell (read from another reference)"
         elif back.next.type_ != "vmc_quit_exc":
             return f"vmc_envelope with a save list: next parsed as {back.next.type_}"
+    # with an empty save list the parsed continuation can be serialised again and gives the same cell
+    cd0 = VmControlData("vm_ctl_data", nargs=nargs, stack=None, save=None, cp=cp)
+    k0 = VmCont("vmc_envelope", cdata=cd0, next=VmCont("vmc_quit", exit_code=r.choice([0, 1, -1])))
+    c0 = VmCont.serialize(k0)
+    b0 = VmCont.deserialize(c0.begin_parse())
+    if (b0.cdata.nargs, b0.cdata.cp) != (nargs, cp):
+        return f"vmc_envelope: nargs={nargs} cp={cp} came back as {b0.cdata.nargs}/{b0.cdata.cp}"
+    if VmCont.serialize(b0).hash != c0.hash:
+        return "vmc_envelope: a parsed continuation serialises to another cell"
     return "ok"
 
 
